@@ -47,6 +47,7 @@ type Contract struct {
 	Covers   []*Clause
 	Lemmas   []*Clause
 	NoInline bool
+	Inline   bool // callers execute the body instead of using the contract
 }
 
 type ghostDecl struct {
@@ -121,7 +122,7 @@ func (w *World) parseContracts(pkgs []*packages.Package) error {
 }
 
 var keywords = map[string]bool{"func": true, "closure": true, "assume": true, "requires": true, "ensures": true, "modifies": true, "loop": true,
-	"safety": true, "ghost": true, "monitor": true, "inv": true, "spawn": true, "pure": true, "note": true, "cover": true, "lemma": true, "iface": true, "noinline": true, "trusted": true}
+	"safety": true, "ghost": true, "monitor": true, "inv": true, "spawn": true, "pure": true, "note": true, "cover": true, "lemma": true, "iface": true, "noinline": true, "trusted": true, "inline": true}
 
 func firstWord(s string) string {
 	s = strings.TrimSpace(s)
@@ -236,6 +237,8 @@ func (w *World) parseContractLines(sp *ssa.Package, lines, poss []string) error 
 			cur.Pure = true
 		case "noinline":
 			cur.NoInline = true
+		case "inline":
+			cur.Inline = true
 		case "note":
 			cur.Notes = append(cur.Notes, rest)
 		case "ghost":
